@@ -82,6 +82,13 @@ class Ctl(object):
         mc_kwargs.setdefault("n_tries", self.n_tries)
         mc_kwargs.setdefault("timeout", self.timeout)
         self.mc = self.mcmod.MachineController(host, **mc_kwargs)
+        if self.tape.draw(8) == 0:
+            # a connection that has been in use for a long time: its 16-bit
+            # sequence numbers are about to wrap
+            conn = self.mc.connections[None]
+            for _ in range(65536 - self.tape.draw(48)):
+                next(conn.seq)
+            self.w.probe("seq_about_to_wrap")
         return self.mc
 
     def settle(self):
